@@ -124,6 +124,22 @@ static bool kindsAgree(Which w, const JsonDocument& d, const std::string& ref) {
     size_t n = ser(w, d, cw);
     ok = ok && cw.out == ref && n == ref.size();
   }
+  {  // a std::ostream that cannot seek (a pipe, a terminal, a hand-written streambuf): tellp() is -1
+    struct SinkBuf : std::streambuf {
+      std::string out;
+      int_type overflow(int_type c) override { if (c != traits_type::eof()) out += char(c); return c; }
+      std::streamsize xsputn(const char* s, std::streamsize n) override { out.append(s, (size_t)n); return n; }
+    } sb;
+    std::ostream os(&sb);
+    size_t n = ser(w, d, os);
+    ok = ok && sb.out == ref && n == ref.size();
+  }
+  {  // a std::ostream that already holds something: only the new bytes count
+    std::ostringstream os;
+    os << "prefix";
+    size_t n = ser(w, d, os);
+    ok = ok && os.str() == "prefix" + ref && n == ref.size();
+  }
   {
     std::vector<char> big(ref.size() + 16, '\x7e');
     size_t n = serBuf(w, d, big.data(), big.size());
